@@ -225,6 +225,8 @@ Definition set_clr (t : timer) (c : chan) : timer :=
   | PClr rq _ => set_ph t (PClr rq c) | PFin rq _ => set_ph t (PFin rq (Some c)) | _ => t
   end.
 
+Definition drop_code (c : chan) : obs := match c_tx c with TDropped => ORes 2 | _ => ORes 3 end.
+
 Definition tstep (t : timer) (x : tin) : timer * obs :=
   match x with
   | IPoll =>
@@ -238,7 +240,7 @@ Definition tstep (t : timer) (x : tin) : timer * obs :=
   | IDropReq =>
       match get_req t with
       | None => (t, ORes 2)
-      | Some c => let '(c1, w) := dropreq_chan c in (add_wake (set_req t c1) w, ORes 3)
+      | Some c => let '(c1, w) := dropreq_chan c in (add_wake (set_req t c1) w, drop_code c)
       end
   | IAnsClr r =>
       match get_clr t with
@@ -248,7 +250,7 @@ Definition tstep (t : timer) (x : tin) : timer * obs :=
   | IDropClr =>
       match get_clr t with
       | None => (t, ORes 2)
-      | Some c => let '(c1, w) := dropreq_chan c in (add_wake (set_clr t c1) w, ORes 3)
+      | Some c => let '(c1, w) := dropreq_chan c in (add_wake (set_clr t c1) w, drop_code c)
       end
   | IClear =>    (* Sender::send then Drop; Err (ignored) when the receiver is gone *)
       match t_os t with
@@ -298,3 +300,28 @@ Fixpoint srun (s : sys) (xs : list sin) : list obs :=
   | x :: xs' => let '(s1, o) := sstep s x in o :: (if is_panic o then [] else srun s1 xs')
   end.
 Definition sys0 (c0 : N) : sys := mkSys c0 [].
+
+(* ---- decidable equality of observations (used by the correspondence check) ---- *)
+Definition eff_eqb (a b : eff) : bool :=
+  match a, b with
+  | ENotifyAfter x, ENotifyAfter y | ENotifyAt x, ENotifyAt y | EClear x, EClear y => N.eqb x y
+  | _, _ => false
+  end.
+Definition outcome_eqb (a b : outcome) : bool :=
+  match a, b with Completed x, Completed y => N.eqb x y | Cleared, Cleared => true | _, _ => false end.
+Fixpoint list_eqb {A} (f : A -> A -> bool) (a b : list A) : bool :=
+  match a, b with
+  | [], [] => true
+  | x :: a', y :: b' => f x y && list_eqb f a' b'
+  | _, _ => false
+  end.
+Definition obs_eqb (a b : obs) : bool :=
+  match a, b with
+  | OPoll e v d, OPoll e' v' d' => list_eqb eff_eqb e e' && list_eqb outcome_eqb v v' && Bool.eqb d d'
+  | ORes x, ORes y => N.eqb x y
+  | OPanic, OPanic => true
+  | OStarted x, OStarted y => N.eqb x y
+  | OBad, OBad => true
+  | _, _ => false
+  end.
+Definition trace_eqb := list_eqb obs_eqb.
